@@ -1,5 +1,5 @@
 From Coq Require Import ZArith List Bool String.
-From SV Require Import c01.Passes_Model_C01 c01.Passes_Basics_C01 c01.Passes_Compat_C01 c01.Passes_Proofs_C01 gen.Gen_C01p c01.Properties_C01p.
+From SV Require Import c01.Passes_Model_C01 c01.Passes_Basics_C01 c01.Passes_Compat_C01 c01.Passes_Proofs_C01 gen.Gen_C01p c01.Passes_CEval_C01 c01.Passes_CEvalFn_C01 c01.Properties_C01p.
 Import ListNotations.
 Open Scope string_scope.
 
@@ -60,6 +60,26 @@ Check (C01p_ceval_unsound_if_body_returned :
             run (ceval all_on e) = "OK (1 . (2 . ())) OUT 1").
 Check (C01p_ceval_unsound_without_surplus_check :
   exists e, run e = "OK 1 OUT 7" /\ run (ceval off_surplus e) = "OK 1 OUT " /\ run (ceval all_on e) = "OK 1 OUT 7").
+Check (C01p_consteval_visit_preserves : forall c e e' u ch,
+  cwf e = true -> cvisit all_on c e = (e', u, ch) -> has_marker e' = false ->
+  forall n s s' ρ ρ' r s1,
+    CE.srel s s' -> CE.envrel (fv e') ρ ρ' -> CE.cok c ρ (fv e) ->
+    eval n s ρ e = Some (r, s1) ->
+    exists r' s1', eval n s' ρ' e' = Some (r', s1') /\ CE.rrel r r' /\ CE.srel s1 s1').
+Check (C01p_consteval_preserves : forall e, cwf e = true -> ceval_ok e = true ->
+  forall n s s' ρ ρ' r s1,
+    CE.srel s s' -> CE.envrel (fv (ceval all_on e)) ρ ρ' ->
+    eval n s ρ e = Some (r, s1) ->
+    exists r' s1', eval n s' ρ' (ceval all_on e) = Some (r', s1') /\ ostar (r, s1) (r', s1')).
+Check (C01p_consteval_observable : forall e n r, cwf e = true -> ceval_ok e = true ->
+  eval n (ENone, []) ENone e = Some r ->
+  exists r', eval n (ENone, []) ENone (ceval all_on e) = Some r' /\ render_res (Some r) = render_res (Some r')).
+Check (C01p_ceval_unsound_if_operands_judged_inside : run w_scope = "OK 7 OUT 1" /\ run (ceval off_operand_scope w_scope) = "ERR OUT 1" /\ run (ceval all_on w_scope) = "OK 7 OUT 1" /\
+  cwf w_scope = true /\ ceval_ok w_scope = true).
+Check (C01p_consteval_nonvacuous : cwf nv_ce1 = true /\ ceval_ok nv_ce1 = true /\ ceval all_on nv_ce1 <> nv_ce1 /\
+  run nv_ce1 = "OK (4 . (5 . ())) OUT 2 3" /\ run (ceval all_on nv_ce1) = "OK (4 . (5 . ())) OUT 2 3" /\
+  cwf nv_ce2 = true /\ ceval_ok nv_ce2 = true /\ ceval all_on nv_ce2 <> nv_ce2 /\
+  run (ceval all_on nv_ce2) = "OK (1 . (2 . ())) OUT 1").
 Print Assumptions C01p_guards_match_source.
 Print Assumptions C01p_flatten_preserves.
 Print Assumptions C01p_flatten_observable.
@@ -78,3 +98,8 @@ Print Assumptions C01p_passes_nonvacuous.
 Print Assumptions C01p_ceval_unsound_without_rest_guard.
 Print Assumptions C01p_ceval_unsound_if_body_returned.
 Print Assumptions C01p_ceval_unsound_without_surplus_check.
+Print Assumptions C01p_consteval_visit_preserves.
+Print Assumptions C01p_consteval_preserves.
+Print Assumptions C01p_consteval_observable.
+Print Assumptions C01p_ceval_unsound_if_operands_judged_inside.
+Print Assumptions C01p_consteval_nonvacuous.
